@@ -29,7 +29,46 @@ def field_boundary(m, bits):
     # alternating patterns
     vals.add(int("aa" * (bits // 8), 16) % m)
     vals.add(int("55" * (bits // 8), 16) % m)
+    vals.update(mont_domain_boundary(m))
     return sorted(vals)
+
+
+def limb_patterns(width):
+    """raw width-bit values built from limb-boundary patterns (single limbs, all-ones limbs, carry chains)"""
+    nl = width // 64
+    M = (1 << 64) - 1
+    pats = set()
+    for i in range(nl):
+        pats.add(1 << (64 * i))                      # only limb i non-zero (value 1)
+        pats.add(M << (64 * i))                      # limb i all ones
+        pats.add((1 << 63) << (64 * i))              # top bit of limb i
+        pats.add(((1 << 63) + 1) << (64 * i))
+        if i + 1 < nl:
+            pats.add(((1 << 63) << (64 * i)) | (M << (64 * (i + 1))))                     # carry into an all-ones limb
+            pats.add(((1 << 63) << (64 * i)) | (M << (64 * (i + 1))) | (1 << (64 * (nl - 1))))
+            pats.add((M << (64 * i)) | (M << (64 * (i + 1))))
+            pats.add((1 << (64 * i)) | (M << (64 * (i + 1))))
+        if i + 2 < nl:
+            pats.add(((1 << 63) << (64 * i)) | (M << (64 * (i + 1))) | (M << (64 * (i + 2))))
+            pats.add(((1 << 63) << (64 * i)) | (M << (64 * (i + 1))) | (1 << (64 * (i + 2))) | (1 << (64 * (nl - 1))))
+    pats.add((1 << (64 * (nl - 1))) - 1)             # all limbs but the top one all ones
+    return pats
+
+
+def mont_domain_boundary(m):
+    """Field elements whose INTERNAL (Montgomery) representation is a limb-boundary pattern: a = v * R^-1 mod m for
+    v in {single non-zero limb, all-ones limbs, 2^63 in a limb followed by an all-ones limb (carry chains), ...}.
+    The library's arithmetic acts on v, so these are the values that exercise its carry / zero-test / limb logic."""
+    width = 384 if m == Q else 256
+    rinv = pow(1 << width, -1, m)
+    pats = limb_patterns(width)
+    pats.add(m - 1)
+    pats.add(m >> 1)
+    out = set()
+    for v in pats:
+        if 0 <= v < m:
+            out.add(v * rinv % m)
+    return out
 
 
 def repr_boundary(m, width):
@@ -46,9 +85,19 @@ def repr_boundary(m, width):
             vals.add(1 << k)
     vals.add(1 << (m.bit_length() - 1))
     vals.add((1 << m.bit_length()) - 1)
+    vals.update(v for v in limb_patterns(width) if v <= top)
     if (1 << m.bit_length()) <= top:
         vals.add(1 << m.bit_length())
     return sorted(vals)
+
+
+_MONT_SETS = {}
+
+
+def _mont_set(m):
+    if m not in _MONT_SETS:
+        _MONT_SETS[m] = frozenset(mont_domain_boundary(m))
+    return _MONT_SETS[m]
 
 
 def fclass(v, m):
@@ -64,6 +113,8 @@ def fclass(v, m):
     mont = (1 << (384 if m == Q else 256)) % m
     if v in (mont, mont * mont % m, (mont - 1) % m, (mont + 1) % m, (-mont) % m):
         return "mont"
+    if v in _mont_set(m):
+        return "mont-limb"
     if v < (1 << 16):
         return "small"
     if m - v < (1 << 16):
